@@ -24,8 +24,8 @@ Also write a demonstration: a standalone pytest file {wt}/demo_{p['id']}.py (or 
 
 How to run things (the library is imported from PYTHONPATH, so always set it):
   cd {wt} && PYTHONPATH={wt}/src /venv/bin/python -m pytest -q -p no:cacheprovider demo_{p['id']}.py
-Full suite (takes ~60 s; the e2e tests bind fixed TCP ports, so ALWAYS wrap the full suite in the lock exactly like this, and run it as few times as you can):
-  cd {wt} && flock /tmp/aioslsk-suite.lock env PYTHONPATH={wt}/src /venv/bin/python -m pytest -q -p no:cacheprovider --timeout=900 -x tests 2>&1 | tail -5
-Targeted unit tests (tests/unit/...) can be run without the lock. There is no network; nothing can be installed.
+Full suite (takes ~60 s; the e2e tests bind fixed TCP ports, so ALWAYS run the full suite in its own network namespace exactly like this):
+  cd {wt} && unshare -n sh -c 'ip link set lo up; PYTHONPATH={wt}/src /venv/bin/python -m pytest -q -p no:cacheprovider --timeout=900 -x tests 2>&1 | tail -5'
+Targeted unit tests (tests/unit/...) can be run directly. There is no network; nothing can be installed.
 
 When done, leave the worktree with your source change applied (uncommitted) and the demo file present, and reply with: (1) the output of `git -C {wt} diff -- src`, (2) one paragraph: what the change breaks and exactly what is needed for it to manifest, (3) the tail of the full-suite run WITH the change (must be all passed), (4) the demo's result with and without the change. If you cannot find a change that keeps the full suite green, say so plainly rather than weakening the requirement.""")
